@@ -1612,7 +1612,7 @@ theorem findLastRegion_spec {fuel : Nat} {c c' : Cache} {pd : PD} {e : Entry}
   unfold findLastRegion at h
   split at h
   · rename_i e0 _
-    by_cases hc : (e0.r.endKey.isEmpty && !e0.reload && e0.valid) = true
+    by_cases hc : (e0.r.endKey.isEmpty && !(e0.reload && !e0.delayedOnly) && e0.valid) = true
     · simp only [hc, if_true, Prod.mk.injEq, Except.ok.injEq] at h
       rw [← h.2]
       simp only [Bool.and_eq_true] at hc
